@@ -22,6 +22,8 @@ const (
 type call struct {
 	Fn   string   `json:"fn"`
 	Args []uint64 `json:"args"`
+	// Ctx: the kind of context the call is made with ("" = the runtime's live cancellable context); see ctxdone.go
+	Ctx string `json:"ctx,omitempty"`
 }
 
 type program struct {
@@ -48,6 +50,8 @@ type program struct {
 	// ("" none, "tail" = CoreFeaturesTailCall, "threads" = CoreFeaturesThreads). A semantic base like the
 	// memory limit: the baseline has it too.
 	Feat string
+	// InstCtx: kind of the context InstantiateModule (and so the start function) is called with ("" = live); ctxdone.go
+	InstCtx string
 }
 
 func (p *program) tag() string {
@@ -75,6 +79,7 @@ var envSigs = map[string][2][]byte{
 	"note":        {{i32}, {i32}},
 	"reentermain": {{i32}, {i32}},
 	"peek":        {{i32}, {i32}},
+	"ctxdone":     {{i32}, {i32}},
 	"pair":        {{i32}, {i32, i64}},
 	"ext":         {{wb.ExternRef}, {wb.ExternRef}},
 }
@@ -110,7 +115,7 @@ func (b *pb) exp(name string, params, results, locals []byte, a *wb.Asm) uint32 
 }
 
 func (b *pb) call(fn string, args ...uint64) {
-	b.p.Calls = append(b.p.Calls, call{fn, append([]uint64{}, args...)})
+	b.p.Calls = append(b.p.Calls, call{Fn: fn, Args: append([]uint64{}, args...)})
 }
 
 func (b *pb) mem(min uint32, max int64) {
@@ -1542,7 +1547,7 @@ func famInitErr(th bool) []*program {
 
 func buildCorpus(thorough bool) []*program {
 	var ps []*program
-	for _, f := range []func(bool) []*program{famArith, famControl, famMem, famGlobals, famTables, famBulk, famHost, famTraps, famMV, famSections, famStart, famV2, famLinked, famLinkedHost, famInitErr, famTailCall} {
+	for _, f := range []func(bool) []*program{famArith, famControl, famMem, famGlobals, famTables, famBulk, famHost, famTraps, famMV, famSections, famStart, famV2, famLinked, famLinkedHost, famInitErr, famTailCall, famCtxDone} {
 		ps = append(ps, f(thorough)...)
 	}
 	seen := map[string]bool{}
